@@ -5,6 +5,7 @@ package c10
 import (
 	"fmt"
 	"math/rand/v2"
+	"net"
 	"net/url"
 	"os"
 	"path/filepath"
@@ -95,6 +96,26 @@ func escPath(rng *rand.Rand) string {
 type cfgT struct {
 	name string
 	cfg  hk.Config
+	// clientHost: the clients connect from/to this address (an IPv6 link-local
+	// address with a zone, whose text contains a '%'); "" = loopback IPv4
+	clientHost string
+}
+
+// linkLocal finds an IPv6 link-local address with its zone, e.g. fe80::1%eth0.
+func linkLocal() string {
+	ifs, _ := net.Interfaces()
+	for _, ifc := range ifs {
+		if ifc.Flags&net.FlagUp == 0 || ifc.Flags&net.FlagLoopback != 0 {
+			continue
+		}
+		as, _ := ifc.Addrs()
+		for _, a := range as {
+			if ipn, ok := a.(*net.IPNet); ok && ipn.IP.To4() == nil && ipn.IP.IsLinkLocalUnicast() {
+				return ipn.IP.String() + "%" + ifc.Name
+			}
+		}
+	}
+	return ""
 }
 
 func makeConfigs(work string) []cfgT {
@@ -108,15 +129,20 @@ func makeConfigs(work string) []cfgT {
 	os.WriteFile(badT, []byte("{{.Nope}} %s %d\n"), 0o644)
 	unparsable := filepath.Join(work, "unparsable%x.tmpl")
 	os.WriteFile(unparsable, []byte("{{ %s %d \n"), 0o644)
-	return []cfgT{
-		{"dir", hk.Config{FDir: fd}},
-		{"unset", hk.Config{}},
-		{"single-file", hk.Config{FDir: single}},
-		{"missing-fdir", hk.Config{FDir: filepath.Join(work, "nonexistent%s%d%v")}},
-		{"missing-template", hk.Config{FDir: fd, TmplF: filepath.Join(work, "no-such%s%d.tmpl")}},
-		{"failing-template", hk.Config{TmplF: badT}},
-		{"unparsable-template", hk.Config{TmplF: unparsable}},
+	var extra []cfgT
+	if ll := linkLocal(); ll != "" {
+		// the client address itself carries a '%' (zone of a link-local address)
+		extra = append(extra, cfgT{"dir-linklocal-client", hk.Config{FDir: fd, Addr: "[::]:0"}, ll}, cfgT{"unset-linklocal-client", hk.Config{Addr: "[::]:0"}, ll})
 	}
+	return append(extra, []cfgT{
+		{name: "dir", cfg: hk.Config{FDir: fd}},
+		{name: "unset", cfg: hk.Config{}},
+		{name: "single-file", cfg: hk.Config{FDir: single}},
+		{name: "missing-fdir", cfg: hk.Config{FDir: filepath.Join(work, "nonexistent%s%d%v")}},
+		{name: "missing-template", cfg: hk.Config{FDir: fd, TmplF: filepath.Join(work, "no-such%s%d.tmpl")}},
+		{name: "failing-template", cfg: hk.Config{TmplF: badT}},
+		{name: "unparsable-template", cfg: hk.Config{TmplF: unparsable}},
+	}...)
 }
 
 type reqT struct {
@@ -189,6 +215,18 @@ func runServer(r *mon.Run, si int, ct cfgT, n int) {
 		return
 	}
 	defer s.Stop()
+	addr := s.Addr
+	if ct.clientHost != "" {
+		_, port, _ := net.SplitHostPort(s.Addr)
+		addr = net.JoinHostPort(ct.clientHost, port)
+		if c, err := hk.Dial(addr, ""); err != nil {
+			r.Inconclusive("link-local address not usable: " + err.Error())
+			return
+		} else {
+			c.Close()
+		}
+		r.Count("servers_with_percent_in_client_address", 1)
+	}
 	from, _ := s.Mark(fmt.Sprintf("MARK-start-%d", si))
 	for i := 0; i < n; i++ {
 		idx := si*100000 + i
@@ -201,7 +239,7 @@ func runServer(r *mon.Run, si int, ct cfgT, n int) {
 		status := 0
 		switch q.stream {
 		case "":
-			res, _, err := hk.RoundTrip(s.Addr, q.sni, []byte(q.raw), hk.Bound)
+			res, _, err := hk.RoundTrip(addr, q.sni, []byte(q.raw), hk.Bound)
 			if err != nil && res == nil {
 				r.Inconclusive(fmt.Sprintf("request failed: %v", err))
 				continue
@@ -217,7 +255,7 @@ func runServer(r *mon.Run, si int, ct cfgT, n int) {
 				expect = nil
 			}
 		case "i", "o":
-			c, err := openStream(s.Addr, q.raw)
+			c, err := openStream(addr, q.raw)
 			if err != nil {
 				r.Inconclusive(err.Error())
 				continue
@@ -236,15 +274,15 @@ func runServer(r *mon.Run, si int, ct cfgT, n int) {
 			if id2 == id1 {
 				id2 += "%d"
 			}
-			c1, err := openStream(s.Addr, fmt.Sprintf("GET /i/%s HTTP/1.1\r\nHost: h\r\n\r\n", url.PathEscape(id1)))
+			c1, err := openStream(addr, fmt.Sprintf("GET /i/%s HTTP/1.1\r\nHost: h\r\n\r\n", url.PathEscape(id1)))
 			if err != nil {
 				r.Inconclusive(err.Error())
 				continue
 			}
 			s.Log.Wait(from, hk.Bound, func(e bk.Event) bool { return e.Kind == "op" && strings.Contains(e.S, "connected: ID") })
 			// same direction, other ID; then other direction, other ID
-			hk.RoundTrip(s.Addr, "", []byte(fmt.Sprintf("GET /i/%s HTTP/1.1\r\nHost: h\r\nConnection: close\r\n\r\n", url.PathEscape(id2))), hk.Bound)
-			hk.RoundTrip(s.Addr, "", []byte(fmt.Sprintf("POST /o/%s HTTP/1.1\r\nHost: h\r\nContent-Length: 0\r\nConnection: close\r\n\r\n", url.PathEscape(id2))), hk.Bound)
+			hk.RoundTrip(addr, "", []byte(fmt.Sprintf("GET /i/%s HTTP/1.1\r\nHost: h\r\nConnection: close\r\n\r\n", url.PathEscape(id2))), hk.Bound)
+			hk.RoundTrip(addr, "", []byte(fmt.Sprintf("POST /o/%s HTTP/1.1\r\nHost: h\r\nContent-Length: 0\r\nConnection: close\r\n\r\n", url.PathEscape(id2))), hk.Bound)
 			s.Log.Wait(from, hk.Bound, func(e bk.Event) bool {
 				return e.Kind == "op" && strings.Contains(e.S, "Rejected output")
 			})
@@ -297,6 +335,12 @@ func judgeWindow(r *mon.Run, s *hk.Server, idx int, ct cfgT, q reqT, from, to in
 		}
 		texts = append(texts, e.S)
 		r.Count("notices_checked", 1)
+		if ct.clientHost != "" && strings.HasPrefix(e.S, "[") && !strings.HasPrefix(e.S, "["+ct.clientHost+"]") {
+			r.Violate("req", idx, "notice-omits-client-text:client-address", fmt.Sprintf("operator notice %q does not start with the client's address [%s]", e.S, ct.clientHost), map[string]any{"request": q.raw})
+		}
+		if ct.clientHost != "" && strings.HasPrefix(e.S, "[") {
+			r.Count("client_address_notices_checked", 1)
+		}
 		if strings.Contains(e.S, "%!") {
 			r.Violate("req", idx, "formatter-artefact:"+q.class, fmt.Sprintf("operator notice contains a formatter artefact: %q (request class %s, server %s)", e.S, q.class, ct.name), map[string]any{"request": q.raw, "notices": texts})
 		}
